@@ -117,6 +117,129 @@ func execOpAPISpare(c *Case, spare bool) Observation {
 	return obs
 }
 
+// execOpAPIRefilled: ONE operator instance is applied to the input tensor objects while they hold other float values, the caller
+// then refills the same objects with the values of the case, and the same instance is applied again; the second result is
+// judged. Whatever an instance remembers about a tensor object (a copy of its contents, a derived table) is stale by then.
+func execOpAPIRefilled(c *Case) (Observation, bool) {
+	ins, outs := ioNames(c)
+	node, err := mkNode(c.Op, c.Attrs, ins, outs)
+	if err != nil {
+		return Observation{Kind: "harness", Note: err.Error()}, false
+	}
+	inputs, err := mkInputs(c)
+	if err != nil {
+		return Observation{Kind: "harness", Note: err.Error()}, false
+	}
+	type saved struct {
+		f32 []float32
+		f64 []float64
+		i64 []int64
+		i32 []int32
+	}
+	keep := make([]saved, len(inputs))
+	any := false
+	seen := map[tensor.Tensor]bool{}
+	for i, t := range inputs {
+		if t == nil || seen[t] {
+			continue // (an object that stands at two positions is refilled once)
+		}
+		size := 1
+		for _, d := range t.Shape() {
+			size *= d
+		}
+		if size == 0 {
+			seen[t] = true
+			continue // (the tensor library cannot hand out the data of a tensor without elements)
+		}
+		seen[t] = true
+		switch d := t.Data().(type) {
+		case []float32:
+			keep[i].f32 = append([]float32{}, d...)
+			for k := range d {
+				d[k] = d[(k+1)%len(d)]*0.5 - 1.25
+			}
+			any = true
+		case []float64:
+			keep[i].f64 = append([]float64{}, d...)
+			for k := range d {
+				d[k] = d[(k+1)%len(d)]*0.5 - 1.25
+			}
+			any = true
+		case []int64:
+			// index-like operands (starts, ends, axes, shapes, indices) hold zeros during the first application
+			keep[i].i64 = append([]int64{}, d...)
+			for k := range d {
+				d[k] = 0
+			}
+			any = true
+		case []int32:
+			keep[i].i32 = append([]int32{}, d...)
+			for k := range d {
+				d[k] = 0
+			}
+			any = true
+		}
+	}
+	if !any {
+		return Observation{}, false
+	}
+	var op ops.Operator
+	first := guard(func() Observation {
+		o, err := opset13.GetOperator(c.Op)
+		if err != nil {
+			return observeErr(err)
+		}
+		if err := o.Init(node); err != nil {
+			return observeErr(err)
+		}
+		op = o
+		v, err := o.ValidateInputs(inputs)
+		if err != nil {
+			return observeErr(err)
+		}
+		if _, err := o.Apply(v); err != nil {
+			return observeErr(err)
+		}
+		return Observation{Kind: "value"}
+	})
+	if first.Kind == "panic" {
+		first.Note = "first application (other values in the same tensors): " + first.Note
+		return first, true
+	}
+	if op == nil {
+		return Observation{}, false
+	}
+	for i, t := range inputs {
+		if t == nil || (keep[i].f32 == nil && keep[i].f64 == nil && keep[i].i64 == nil && keep[i].i32 == nil) {
+			continue
+		}
+		switch d := t.Data().(type) {
+		case []float32:
+			if keep[i].f32 == nil {
+				continue
+			}
+			copy(d, keep[i].f32)
+		case []float64:
+			copy(d, keep[i].f64)
+		case []int64:
+			copy(d, keep[i].i64)
+		case []int32:
+			copy(d, keep[i].i32)
+		}
+	}
+	return guard(func() Observation {
+		v, err := op.ValidateInputs(inputs)
+		if err != nil {
+			return observeErr(err)
+		}
+		res, err := op.Apply(v)
+		if err != nil {
+			return observeErr(err)
+		}
+		return valueObs(res)
+	}), true
+}
+
 // execOpAPITwice applies two fresh operator instances, one after the other, to the SAME input tensor objects and returns the
 // second observation: an operator that writes into (or reshapes) what it is given makes the second application deviate.
 func execOpAPITwice(c *Case) Observation {
@@ -281,6 +404,9 @@ func execOpCase(c *Case) []ModeResult {
 				out = append(out, ModeResult{"api:same-tensors-twice", Verdict(c, o2), o2.Short()})
 				o6 := execOpAPISpare(c, true)
 				out = append(out, ModeResult{"api:spare-capacity", Verdict(c, o6), o6.Short()})
+				if o7, ok := execOpAPIRefilled(c); ok {
+					out = append(out, ModeResult{"api:one-instance-buffers-refilled", Verdict(c, o7), o7.Short()})
+				}
 			}
 			if len(c.Same) == 0 {
 				// operands that are equal tensors may be the very same object (Gemm(X, X), Add(v, v), ...)
